@@ -102,8 +102,9 @@ def gen_sig_problem(rng):
     if n == 2 and rng.random() < 0.3:
         eqs.append(rm.sig_leaf([[F(1), F(-1)], [F(0), F(0)]], [F(1), F(-1)]))                       # e^{x-y} = 1
     X = rng.choice(['none', 'infer', 'infer'])
+    lv = rng.choice([(0, 1, 0), (0, 1, 0), (0, 1, 1), (0, 2, 0), (1, 1, 0)])
     return {'kind': 'sig', 'f': f, 'gts': gts, 'eqs': eqs, 'X': X, 'via_X_only': X == 'infer' and not eqs and rng.random() < 0.5,
-            'p': 0, 'q': 1, 'ell': rng.choice([0, 0, 1])}
+            'p': lv[0], 'q': lv[1], 'ell': lv[2]}
 
 
 def gen_poly_problem(rng):
@@ -130,8 +131,36 @@ def gen_poly_problem(rng):
         e2 = [F(2)] + [F(0)] * (n - 1)
         eqs.append(rm.sig_leaf([e2, [F(0)] * n], [F(1), F(-1)], poly=True))                          # x_0^2 = 1
     X = rng.choice(['none', 'infer', 'infer'])
+    # hierarchy levels (the property quantifies over any p, q, ell) and sign constraints x_i >= 0 (single-monomial inequalities)
+    lv = rng.choice([(0, 1, 0), (0, 1, 0), (0, 2, 0), (1, 1, 0), (0, 1, 1), (0, 2, 0)])
+    if rng.random() < 0.35:
+        for i in range(n):
+            if rng.random() < 0.7:
+                gts.append(rm.sig_leaf([[F(1) if j == i else F(0) for j in range(n)]], [F(1)], poly=True))      # x_i >= 0
     return {'kind': 'poly', 'f': f, 'gts': gts, 'eqs': eqs, 'X': X, 'via_X_only': X == 'infer' and not eqs and rng.random() < 0.5,
-            'p': 0, 'q': 1, 'ell': 0}
+            'p': lv[0], 'q': lv[1], 'ell': lv[2]}
+
+
+def level_families():
+    """fixed members of the quantifier that a random draw of 6 problems seldom reaches: sign constraints x_i >= 0 (single-monomial
+    inequalities) at q = 2 and p = 1, an equality at q = 2, signomial problems at q = 2"""
+    out = []
+    P = lambda rows, c: rm.sig_leaf([[F(v) for v in r] for r in rows], [F(v) for v in c], poly=True)   # noqa: E731
+    S = lambda rows, c: rm.sig_leaf([[F(v) for v in r] for r in rows], [F(v) for v in c])              # noqa: E731
+    f2 = P([[2, 2], [1, 1], [4, 0], [2, 0], [0, 0]], [1, -2, 1, -2, 2])          # (x0 x1 - 1)^2 + (x0^2 - 1)^2
+    f1 = P([[4], [1], [0]], [1, -3, 0])
+    for lv in ((0, 2, 0), (1, 1, 0), (0, 1, 0)):
+        out.append({'kind': 'poly', 'f': f2, 'gts': [P([[1, 0]], [1]), P([[0, 1]], [1])], 'eqs': [], 'X': 'none', 'via_X_only': False,
+                    'p': lv[0], 'q': lv[1], 'ell': lv[2]})
+        out.append({'kind': 'poly', 'f': f1, 'gts': [P([[1]], [1]), P([[0], [2]], [4, -1])], 'eqs': [], 'X': 'none', 'via_X_only': False,
+                    'p': lv[0], 'q': lv[1], 'ell': lv[2]})
+    out.append({'kind': 'poly', 'f': f2, 'gts': [P([[0, 0], [2, 0]], [4, -1]), P([[0, 0], [0, 2]], [4, -1])],
+                'eqs': [P([[1, 1], [0, 0]], [1, -1])], 'X': 'none', 'via_X_only': False, 'p': 0, 'q': 2, 'ell': 0})
+    fs = S([[0, 0], [2, 0], [-1, 0], [0, 2], [0, -1]], [1, 1, 2, 1, 2])
+    gs = [S([[0, 0], [1, 0]], [3, -1]), S([[1, 0], [0, 0]], [1, '-1/4']), S([[0, 0], [0, 1]], [3, -1]), S([[0, 1], [0, 0]], [1, '-1/4'])]
+    for lv in ((0, 2, 0), (1, 1, 0)):
+        out.append({'kind': 'sig', 'f': fs, 'gts': gs, 'eqs': [], 'X': 'none', 'via_X_only': False, 'p': lv[0], 'q': lv[1], 'ell': lv[2]})
+    return out
 
 
 def build_and_solve(c):
@@ -348,6 +377,7 @@ def run(ctx):
     for e in common.load_corpus('C17'):
         if 'problem' in e and 'regress' not in e:
             problems.append(e['problem'])
+    problems += level_families()
     for _ in range(8 if quick else 60):
         problems.append(gen_sig_problem(rng))
     for _ in range(6 if quick else 40):
